@@ -163,7 +163,7 @@ pub fn walk_blocks(file: &[u8], start: usize, codec: &str) -> (Vec<J>, usize) {
 // ---------------------------------------------------------------------------------------------
 // writer
 // ---------------------------------------------------------------------------------------------
-fn sink_steps(j: &J) -> Result<Vec<SinkStep>, String> {
+pub fn sink_steps(j: &J) -> Result<Vec<SinkStep>, String> {
 	let mut v = Vec::new();
 	for s in j.as_array().ok_or("sink steps must be an array")? {
 		v.push(match s {
